@@ -24,15 +24,10 @@ func (e EmptySet) IsTrue() bool {
 	return false
 }
 
+// Less orders the empty set against other values by Kind, as every other
+// value type does, so that exactly one of {} < v, {} = v and v < {} holds.
 func (e EmptySet) Less(v Value) bool {
-	if e == v {
-		return false
-	}
-	switch v.(type) {
-	case Number, Tuple:
-		return false
-	}
-	return true
+	return e.Kind() < v.Kind()
 }
 
 func (e EmptySet) Negate() Value {
